@@ -33,8 +33,16 @@ theorem frame_well_formed (p : Bytes) : WellFramed (pktLine (some p)) p ↔ p.le
   · intro h
     exact ⟨fmtHex 4 (p.length + 4), fmtHex_length _ (by omega), pktLine_data p, parseLen_fmtHex _ (by omega)⟩
 
+/-- The property's clause "payloads too large for one frame are split or refused, never emitted as a
+malformed frame", for an encoder that (as coded) always returns exactly one frame: the frame would
+have to be well-formed and within git's `LARGE_PACKET_MAX` for every payload.  False as coded
+(`frame_statement_counterexample`); what holds is `frame_within_git_max_partial`. -/
+def FrameStatement : Prop :=
+  ∀ p : Bytes, WellFramed (pktLine (some p)) p ∧ (pktLine (some p)).length ≤ gitLargePacketMax
+
 /-- What the property asks for and the code only delivers below the limit: within git's
-`LARGE_PACKET_MAX` the frame is well-formed and no longer than a conforming peer accepts. -/
+`LARGE_PACKET_MAX` the frame is well-formed and no longer than a conforming peer accepts.
+Missing for the full `FrameStatement`: `pkt_line` would have to refuse (or split) longer payloads. -/
 theorem frame_within_git_max_partial (p : Bytes) (h : p.length + 4 ≤ gitLargePacketMax) :
     WellFramed (pktLine (some p)) p ∧ (pktLine (some p)).length ≤ gitLargePacketMax := by
   have hg : gitLargePacketMax = 65520 := rfl
@@ -66,6 +74,13 @@ theorem over_git_max_counterexample (p : Bytes) (h : p.length = 65517) :
     rw [pktLine_data, List.length_append, fmtHex_length _ (by omega)]; omega
   rw [this]
   exact ⟨rfl, by decide⟩
+
+/-- The full statement fails (F19): a 65517-byte payload is framed in one 65521-byte frame. -/
+theorem frame_statement_counterexample : ¬ FrameStatement := by
+  intro h
+  have h1 := (h (List.replicate 65517 0)).2
+  have h2 := (over_git_max_counterexample (List.replicate 65517 0) List.length_replicate).2
+  exact absurd h1 (Nat.not_le_of_lt h2)
 
 /-! ## 2. Every byte string offered as a length prefix is classified -/
 
@@ -125,11 +140,20 @@ theorem receivable_read_is_blocking_read (n : Nat) (st : RP) (hn : 0 < n) (hv : 
       have : st'.stream = [] := List.eq_nil_of_length_eq_zero hlen
       rw [this, List.append_nil, List.drop_of_length_le (by omega)]
 
+/-- The full round-trip statement for `ReceivableProtocol`: every sequence of payloads that fit (the
+empty payload included, as the property's quantifier demands), every fragmentation.  False as coded
+(`receivable_empty_payload_counterexample`). -/
+def ReceivableRoundtripStatement : Prop :=
+  ∀ (ps : List Pkt) (cs : List Bytes), (∀ x ∈ ps, Fits x) → (∀ c ∈ cs, c ≠ []) → cs.flatten = encode ps →
+    readAll rpRead (ps.length + 1) ⟨none, ⟨[], cs⟩⟩ = (ps, .hangup)
+
 /-- **Round trip under every chunking, `ReceivableProtocol`.**  For every sequence of flush-pkts and
 non-empty payloads that fit, and EVERY way `recv` may cut the encoded byte stream into non-empty
 fragments, repeated `read_pkt_line` returns the original sequence and then hangs up cleanly.
-(The empty payload is excluded by the proof: see the counterexample below.) -/
-theorem receivable_roundtrip_any_chunking (ps : List Pkt) (cs : List Bytes)
+`_partial`: the hypothesis `x ≠ some []` (no empty payload) is forced by the proof — `read(0)` trips
+`assert size > 0`; with `read_pkt_line` skipping the body read for `size == 4` the full
+`ReceivableRoundtripStatement` would go through unchanged. -/
+theorem receivable_roundtrip_any_chunking_partial (ps : List Pkt) (cs : List Bytes)
     (h : ∀ x ∈ ps, Fits x ∧ x ≠ some []) (hcs : ∀ c ∈ cs, c ≠ []) (hflat : cs.flatten = encode ps) :
     readAll rpRead (ps.length + 1) ⟨none, ⟨[], cs⟩⟩ = (ps, .hangup) :=
   readAll_roundtrip rpRead_spec ps (ps.length + 1) ⟨[], cs⟩ hcs (by simpa [RP.stream] using hflat)
@@ -143,7 +167,11 @@ example : readAll rpRead 4 ⟨none, ⟨[], [[48, 48], [48, 53, 97, 48, 48], [48]
 `ReceivableProtocol`: `pkt_line(b"") = b"0004"`, `read_pkt_line` calls `read(0)`, which trips
 `assert size > 0` — neither the payload nor a protocol error. -/
 theorem receivable_empty_payload_counterexample :
-    readAll rpRead 2 ⟨none, ⟨[], [pktLine (some [])]⟩⟩ = ([], .otherErr) := by decide
+    readAll rpRead 2 ⟨none, ⟨[], [pktLine (some [])]⟩⟩ = ([], .otherErr) ∧ ¬ ReceivableRoundtripStatement := by
+  refine ⟨by decide, fun h => ?_⟩
+  have := h [some []] [pktLine (some [])] (by intro x hx; simp at hx; subst hx; show 0 + 4 < 65536; omega)
+    (by decide) (by decide)
+  exact absurd this (by decide)
 
 /-- A transport `read` that returns short (socket `recv` used directly): outside `Protocol`'s contract. -/
 def shortRead : Reader (List Bytes) := fun n s => some (srcRecv n s)
@@ -246,5 +274,302 @@ theorem reader_total : ∀ (n : Nat) (s : Bytes), s.length < n →
                   (by simp only [List.length_drop]; omega)
               · simp only [List.length_take, List.length_drop] at h2
                 simp [h2]
+
+/-! ## 6. `eof()` / `unread_pkt_line` are transparent -/
+
+/-- Probing `eof()` before a read changes neither what `read_pkt_line` returns next nor what is
+left on the transport (any conforming reader, any frame that fits, empty payload allowed when the
+reader allows zero-length reads); on an exhausted stream `eof()` answers `True`. -/
+theorem eof_transparent {τ : Type} {rd : Reader τ} {abs : τ → Bytes} {Valid : τ → Prop} {z : Prop}
+    (hrd : ReadSpec rd abs Valid z) (s : τ) (x : Pkt) (rest : Bytes) (hv : Valid s)
+    (habs : abs s = pktLine x ++ rest) (hf : Fits x) (hz : z ∨ x ≠ some []) :
+    ∃ st' s', eof rd ⟨none, s⟩ = .ok false st' ∧ readPktLine rd st' = .pkt x ⟨none, s'⟩ ∧
+      abs s' = rest ∧ Valid s' := by
+  obtain ⟨s', h1, h2, h3⟩ := readCore_frame hrd s x rest hv habs hf hz
+  obtain ⟨b', g1, _, _⟩ := readCore_frame bytesRead_spec (pktLine x) x [] trivial (by simp) hf (Or.inl trivial)
+  refine ⟨⟨some (pktLine x), s'⟩, s', ?_, ?_, h2, h3⟩
+  · simp [eof, readPktLine, h1, unreadPktLine]
+  · simp [readPktLine, g1]
+
+theorem eof_at_end {τ : Type} {rd : Reader τ} {abs : τ → Bytes} {Valid : τ → Prop} {z : Prop}
+    (hrd : ReadSpec rd abs Valid z) (s : τ) (hv : Valid s) (habs : abs s = []) :
+    ∃ st', eof rd ⟨none, s⟩ = .ok true st' := by
+  obtain ⟨s', h⟩ := readCore_eof hrd s hv habs
+  exact ⟨⟨none, s'⟩, by simp [eof, readPktLine, h]⟩
+
+example : ∃ st', eof bytesRead ⟨none, [48, 48, 48, 53, 97, 48]⟩ = .ok false st' ∧
+    readPktLine bytesRead st' = .pkt (some [97]) ⟨none, [48]⟩ :=
+  ⟨⟨some [48, 48, 48, 53, 97], [48]⟩, by rfl, by rfl⟩
+
+/-! ## 7. `ReceivableProtocol.recv` -/
+
+/-- `recv(n)` (`n > 0`, `_rbufsize > 0`) returns a prefix of the remaining stream of at most `n`
+bytes — non-empty unless the stream is exhausted — and leaves exactly the rest: `read` and `recv`
+calls can be mixed freely without losing, duplicating or reordering a byte. -/
+theorem receivable_recv_prefix (rb n : Nat) (st : RP) (hn : 0 < n) (hrb : 0 < rb)
+    (hv : ∀ c ∈ st.src, c ≠ []) :
+    ∃ out st', rpRecv rb n st = some (out, st') ∧ out ++ st'.stream = st.stream ∧ out.length ≤ n ∧
+      (st.stream ≠ [] → out ≠ []) ∧ (∀ c ∈ st'.src, c ≠ []) := by
+  unfold rpRecv
+  have hn0 : ¬ n = 0 := by omega
+  simp only [hn0, if_false]
+  by_cases hb : st.rbuf = []
+  · simp only [hb, if_true]
+    cases hs : st.src with
+    | nil =>
+      simp only [srcRecv, List.length_nil]
+      by_cases h0 : 0 = n
+      · omega
+      · simp only [h0, if_false]
+        exact ⟨_, _, rfl, by simp [RP.stream, hb, hs], by simp, by simp [RP.stream, hb, hs], by simp⟩
+    | cons c cs =>
+      have hc : c ≠ [] := hv c (by rw [hs]; exact List.mem_cons_self)
+      have hcl : 0 < c.length := by cases c with | nil => exact absurd rfl hc | cons _ _ => simp
+      have hcs : ∀ c' ∈ cs, c' ≠ [] := fun c' h => hv c' (by rw [hs]; exact List.mem_cons_of_mem _ h)
+      simp only [srcRecv]
+      have hst : st.stream = c ++ cs.flatten := by simp [RP.stream, hb, hs]
+      rw [hst]
+      by_cases h1 : c.length ≤ rb
+      · simp only [h1, if_true]
+        by_cases h2 : c.length = n
+        · simp only [h2, if_true]
+          exact ⟨_, _, rfl, by simp [RP.stream], by omega, fun _ => hc, hcs⟩
+        · simp only [h2, if_false]
+          refine ⟨_, _, rfl, ?_, by simp only [List.length_take]; omega, fun _ h => ?_, hcs⟩
+          · simp only [RP.stream]
+            rw [← List.append_assoc, List.take_append_drop]
+          · have := congrArg List.length h
+            simp only [List.length_take, List.length_nil] at this; omega
+      · simp only [h1, if_false]
+        have hv' : ∀ c' ∈ c.drop rb :: cs, c' ≠ [] := by
+          intro c' hc'
+          simp only [List.mem_cons] at hc'
+          rcases hc' with rfl | h
+          · intro h0
+            have := congrArg List.length h0
+            simp only [List.length_drop, List.length_nil] at this; omega
+          · exact hcs _ h
+        by_cases h2 : (c.take rb).length = n
+        · simp only [h2, if_true]
+          refine ⟨_, _, rfl, ?_, by omega, fun _ h => ?_, hv'⟩
+          · simp only [RP.stream, List.nil_append, List.flatten_cons]
+            rw [← List.append_assoc, List.take_append_drop]
+          · have := congrArg List.length h
+            simp only [List.length_take, List.length_nil] at this; omega
+        · simp only [h2, if_false]
+          refine ⟨_, _, rfl, ?_, by simp only [List.length_take]; omega, fun _ h => ?_, hv'⟩
+          · simp only [RP.stream, List.flatten_cons]
+            rw [← List.append_assoc, List.take_append_drop, ← List.append_assoc, List.take_append_drop]
+          · have := congrArg List.length h
+            simp only [List.length_take, List.length_nil] at this; omega
+  · simp only [hb, if_false]
+    refine ⟨_, _, rfl, ?_, by simp only [List.length_take]; omega, fun _ h => ?_, hv⟩
+    · simp only [RP.stream]
+      rw [← List.append_assoc, List.take_append_drop]
+    · have hl : 0 < st.rbuf.length := by
+        cases hr : st.rbuf with | nil => exact absurd hr hb | cons _ _ => simp
+      have := congrArg List.length h
+      simp only [List.length_take, List.length_nil] at this; omega
+
+/-! ## 8. side-band: split at 65515, every frame within git's limit, reassembly per channel -/
+
+/-- **`write_sideband` never exceeds git's frame limit** and every write is one well-formed frame
+carrying the channel byte and a non-empty slice of the blob; the slices concatenate to the blob.
+(Depends on `blob[:65515]`: 65515 + 1 + 4 = 65520.) -/
+theorem sideband_split_ok (ch : UInt8) (blob : Bytes) :
+    (∀ f ∈ writeSideband ch blob, f.length ≤ gitLargePacketMax ∧
+      ∃ c, c ≠ [] ∧ WellFramed f (ch :: c)) ∧
+    (sbChunks blob.length blob).flatten = blob := by
+  refine ⟨fun f hf => ?_, sbChunks_flatten _ _ (Nat.le_refl _)⟩
+  simp only [writeSideband, List.mem_map] at hf
+  obtain ⟨c, hc, rfl⟩ := hf
+  obtain ⟨b1, b2⟩ := sbChunks_bounds _ _ c hc
+  have k : Gen.PktLine.sbChunk = 65515 := rfl
+  have hg : gitLargePacketMax = 65520 := rfl
+  have := frame_within_git_max_partial (ch :: c) (by rw [hg]; simp only [List.length_cons]; omega)
+  refine ⟨this.2, c, ?_, this.1⟩
+  intro h; rw [h] at b1; simp at b1
+
+/-- **Side-band round trip, blocking reader**: any sequence of writes on any channels, followed by
+a flush-pkt and anything else: `read_pkt_seq` + `_read_side_band64k_data` yield exactly the
+`(channel, slice)` pairs, in order, and leave the transport right after the flush-pkt. -/
+theorem sideband_roundtrip (writes : List (UInt8 × Bytes)) (rest : Bytes) :
+    ∃ pk, readPktSeq bytesRead ((sbPackets writes).length + 1)
+        ⟨none, (writes.flatMap (fun w => writeSideband w.1 w.2)).flatten ++ (pktLine none ++ rest)⟩
+      = (pk, none, ⟨none, rest⟩) ∧ sidebandDemux pk = some (sbPairs writes) := by
+  have hw := sideband_wire writes
+  obtain ⟨s', h1, h2, _⟩ := readPktSeq_roundtrip bytesRead_spec rest (sbPackets writes)
+    ((sbPackets writes).length + 1)
+    ((writes.flatMap (fun w => writeSideband w.1 w.2)).flatten ++ (pktLine none ++ rest)) trivial
+    (by simp only [hw]) (sbPackets_ok writes) (Nat.lt_succ_self _)
+  have h2' : s' = rest := h2
+  subst h2'
+  exact ⟨_, h1, sidebandDemux_packets writes⟩
+
+/-- **Side-band round trip under every chunking** (`ReceivableProtocol`): the same, for every way
+`recv` may fragment the wire bytes. -/
+theorem sideband_roundtrip_any_chunking (writes : List (UInt8 × Bytes)) (cs : List Bytes)
+    (hcs : ∀ c ∈ cs, c ≠ [])
+    (hflat : cs.flatten = (writes.flatMap (fun w => writeSideband w.1 w.2)).flatten ++ pktLine none) :
+    ∃ pk st', readPktSeq rpRead ((sbPackets writes).length + 1) ⟨none, ⟨[], cs⟩⟩ = (pk, none, ⟨none, st'⟩) ∧
+      st'.stream = [] ∧ sidebandDemux pk = some (sbPairs writes) := by
+  obtain ⟨s', h1, h2, _⟩ := readPktSeq_roundtrip rpRead_spec [] (sbPackets writes) _ ⟨[], cs⟩ hcs
+    (by simp only [RP.stream, List.nil_append, hflat, sideband_wire, List.append_nil])
+    (sbPackets_ok writes) (Nat.lt_succ_self _)
+  exact ⟨_, s', h1, h2, sidebandDemux_packets writes⟩
+
+/-- **Reassembly per channel**: what a reader collects on channel `ch` is the concatenation of the
+blobs written to `ch`, for every interleaving of writes on the three (indeed all 256) channels. -/
+theorem sideband_reassembly (writes : List (UInt8 × Bytes)) (ch : UInt8) :
+    (((sbPairs writes).filter (fun x => x.1 = ch)).map (·.2)).flatten
+      = ((writes.filter (fun w => w.1 = ch)).map (·.2)).flatten := by
+  induction writes with
+  | nil => simp [sbPairs]
+  | cons w ws ih =>
+    simp only [sbPairs, List.flatMap_cons, List.filter_append, List.map_append, List.flatten_append] at ih ⊢
+    rw [ih, sbPairs_channel]
+    by_cases h : w.1 = ch
+    · simp [h, List.filter_cons, sbChunks_flatten _ _ (Nat.le_refl _)]
+    · simp [h, List.filter_cons]
+
+example : writeSideband 2 [104, 105] = [[48, 48, 48, 55, 2, 104, 105]] := by decide
+
+/-! ## 9. `BufferedPktLineWriter`: what reaches the underlying writer is the pkt-line stream -/
+
+/-- **Buffered writer stream equality**, for every buffer size, every starting value of the
+`_buflen` counter (which `flush` never resets — the `_len` slip — and the model reproduces) and
+every sequence of writes: the blobs handed to the underlying writer, with the final `flush`,
+concatenate to `pkt_line(d1) ++ pkt_line(d2) ++ …`.  (Slice identity `l[:k] + l[k:] = l` for every
+integer `k`, negative ones included.) -/
+theorem buffered_writer_stream_eq (bufsize buflen : Nat) (ds : List Bytes) :
+    (bwRun bufsize ⟨[], buflen⟩ ds).flatten = encode (ds.map some) := by
+  simpa using bwRun_stream bufsize ds ⟨[], buflen⟩
+
+example : bwRun 12 ⟨[], 0⟩ [[97, 98], [99], [100, 101, 102, 103, 104], []]
+    = [[48, 48, 48, 54, 97, 98, 48, 48, 48, 53, 99, 48], [48, 48, 57, 100, 101, 102, 103, 104], [48, 48, 48, 52]] := by
+  decide
+
+/-! ## 10. `PackStreamReader._read`: the checksum trailer is tracked under any read sizes -/
+
+/-- **Trailer tracking**: after any sequence of reads (any sizes, empty reads included) everything
+read so far is `hashed ++ trailer`, and the trailer is the last `min(hash_size, total)` bytes. -/
+theorem trailer_tracking (h : Nat) (hh : 0 < h) (cs : List Bytes) :
+    (trailerRun h ⟨[], []⟩ cs).hashed ++ (trailerRun h ⟨[], []⟩ cs).trailer = cs.flatten ∧
+    (trailerRun h ⟨[], []⟩ cs).trailer.length = min h cs.flatten.length := by
+  simpa using trailerRun_inv h hh cs ⟨[], []⟩ [] rfl (by simp)
+
+/-- hence the hashed prefix and the trailer do not depend on how the stream was cut into reads -/
+theorem trailer_chunking_independent (h : Nat) (hh : 0 < h) (cs cs' : List Bytes)
+    (hflat : cs.flatten = cs'.flatten) : trailerRun h ⟨[], []⟩ cs = trailerRun h ⟨[], []⟩ cs' := by
+  obtain ⟨a1, a2⟩ := trailer_tracking h hh cs
+  obtain ⟨b1, b2⟩ := trailer_tracking h hh cs'
+  rw [hflat] at a1 a2
+  have := List.append_inj' (a1.trans b1.symm) (a2.trans b2.symm)
+  cases h1 : trailerRun h ⟨[], []⟩ cs
+  cases h2 : trailerRun h ⟨[], []⟩ cs'
+  simp only [h1, h2] at this
+  simp [this.1, this.2]
+
+example : trailerRun 3 ⟨[], []⟩ [[1, 2], [3], [], [4, 5, 6, 7, 8, 9], [10]] = ⟨[1, 2, 3, 4, 5, 6, 7], [8, 9, 10]⟩ := by
+  decide
+
+/-! ## 11. capability lists and ref lines -/
+
+/-- The full statement over the property's alphabet (contents without NUL/LF; SP is the separator):
+every capability list survives `format_ref_line` / `extract_capabilities`.  False as coded
+(`caps_empty_list_counterexample`, `caps_edge_whitespace_counterexample`). -/
+def CapsRoundtripStatement : Prop :=
+  ∀ (ref sha : Bytes) (caps : List Bytes), (0 : UInt8) ∉ sha → (0 : UInt8) ∉ ref →
+    (∀ c ∈ caps, (32 : UInt8) ∉ c ∧ (0 : UInt8) ∉ c ∧ (10 : UInt8) ∉ c) →
+    extractCapabilities (formatRefLine ref sha (some caps)) = some (sha ++ [32] ++ ref, caps)
+
+/-- **Capability-list round trip** through `format_ref_line` / `extract_capabilities`, for every ref
+and sha without NUL and every non-empty capability list whose tokens contain neither SP nor NUL,
+whose first token does not start and whose last token does not end with ASCII whitespace (and
+neither is empty) — `CapsWF`, the hypothesis the proof forces (`strip()`/`rstrip()` without
+argument; the empty list is written as `\0\n` and read back as one empty token). -/
+theorem caps_roundtrip_partial (ref sha : Bytes) (caps : List Bytes) (hw : CapsWF caps)
+    (hs : (0 : UInt8) ∉ sha) (hr : (0 : UInt8) ∉ ref) :
+    extractCapabilities (formatRefLine ref sha (some caps)) = some (sha ++ [32] ++ ref, caps) := by
+  obtain ⟨i, c, b, e, hb⟩ := hw.last
+  obtain ⟨X, hX⟩ := joinWith_last 32 i c b
+  have hJ0 : (0 : UInt8) ∉ (32 :: joinWith 32 caps) := by
+    intro h
+    simp only [List.mem_cons] at h
+    rcases h with h | h
+    · exact absurd h (by decide)
+    · rcases mem_joinWith 32 0 caps h with h | ⟨p, hp, hx⟩
+      · exact absurd h (by decide)
+      · exact (hw.nosep p hp).2 hx
+  have hT0 : (0 : UInt8) ∉ sha ++ [32] ++ ref := by
+    simp only [List.mem_append, List.mem_cons, List.not_mem_nil, or_false]
+    intro h
+    rcases h with (h | h) | h
+    · exact hs h
+    · exact absurd h (by decide)
+    · exact hr h
+  unfold formatRefLine
+  simp only
+  rw [formatCapabilityLine_eq caps hw.ne_nil]
+  have hline : sha ++ [32] ++ ref ++ [0] ++ (32 :: joinWith 32 caps) ++ [10]
+      = ((sha ++ [32] ++ ref) ++ 0 :: (32 :: joinWith 32 caps)) ++ [10] := by simp
+  rw [hline]
+  unfold extractCapabilities
+  have hc : (((sha ++ [32] ++ ref) ++ 0 :: (32 :: joinWith 32 caps)) ++ [10]).contains 0 = true := by simp
+  simp only [hc, not_true_eq_false, if_false]
+  rw [rstrip_snoc_ws _ _ (by decide)]
+  have hr2 : rstrip ((sha ++ [32] ++ ref) ++ 0 :: (32 :: joinWith 32 caps))
+      = (sha ++ [32] ++ ref) ++ 0 :: (32 :: joinWith 32 caps) := by
+    rw [e, hX]
+    have : (sha ++ [32] ++ ref) ++ 0 :: (32 :: (X ++ [b])) = ((sha ++ [32] ++ ref) ++ 0 :: (32 :: X)) ++ [b] := by simp
+    rw [this, rstrip_snoc_nonws _ _ hb]
+  rw [hr2, splitOn_append 0 _ _ hT0, splitOn_nosep 0 _ hJ0]
+  simp only
+  rw [strip_capline caps hw, splitOn_join 32 caps hw.ne_nil (fun p hp => (hw.nosep p hp).1)]
+
+/-- Non-vacuity: `thin-pack`-like tokens `[ab, c=d]`. -/
+example : CapsWF [[97, 98], [99, 61, 100]] :=
+  ⟨by decide, ⟨97, [98], [[99, 61, 100]], rfl, by decide⟩, ⟨[[97, 98]], [99, 61], 100, rfl, by decide⟩⟩
+
+/-- **Want-line capability round trip** (`want <sha> cap cap…\n` as the client writes it). -/
+theorem want_caps_roundtrip_partial (cmd sha : Bytes) (caps : List Bytes) (hw : CapsWF caps)
+    (hc : (32 : UInt8) ∉ cmd) (hs : (32 : UInt8) ∉ sha) :
+    extractWantLineCapabilities (joinWith 32 (cmd :: sha :: caps) ++ [10]) = (cmd ++ 32 :: sha, caps) := by
+  obtain ⟨i, c, b, e, hb⟩ := hw.last
+  obtain ⟨X, hX⟩ := joinWith_last 32 (cmd :: sha :: i) c b
+  have e' : cmd :: sha :: caps = (cmd :: sha :: i) ++ [c ++ [b]] := by rw [e]; rfl
+  have k1 : Gen.PktLine.wantMin = 3 := rfl
+  have k2 : Gen.PktLine.wantHead = 2 := rfl
+  unfold extractWantLineCapabilities
+  rw [rstrip_snoc_ws _ _ (by decide)]
+  have hr : rstrip (joinWith 32 (cmd :: sha :: caps)) = joinWith 32 (cmd :: sha :: caps) := by
+    rw [e', hX, rstrip_snoc_nonws _ _ hb]
+  rw [hr, splitOn_join 32 _ (by simp) (by
+    intro p hp
+    simp only [List.mem_cons] at hp
+    rcases hp with rfl | rfl | hp
+    · exact hc
+    · exact hs
+    · exact (hw.nosep p hp).1)]
+  have hne := hw.ne_nil
+  cases caps with
+  | nil => exact absurd rfl hne
+  | cons c0 cr => simp [k1, k2, joinWith]
+
+/-- Negation witness (F-C19-caps-empty-list): the empty capability list comes back as `[b""]`. -/
+theorem caps_empty_list_counterexample :
+    extractCapabilities (formatRefLine [114] [49] (some [])) = some ([49, 32, 114], [[]]) ∧
+    ¬ CapsRoundtripStatement := by
+  refine ⟨by decide, fun h => ?_⟩
+  have := h [114] [49] [] (by decide) (by decide) (by simp)
+  exact absurd this (by decide)
+
+/-- Negation witness (F-C19-caps-edge-whitespace): a TAB at the start of the first token and a CR at
+the end of the last one are stripped (`[b"\ta", b"b\r"]` comes back as `[b"a", b"b"]`); a trailing
+empty token of a want line is dropped. -/
+theorem caps_edge_whitespace_counterexample :
+    extractCapabilities (formatRefLine [114] [49] (some [[9, 97], [98, 13]])) = some ([49, 32, 114], [[97], [98]]) ∧
+    extractWantLineCapabilities (joinWith 32 [[119], [49], [97], []] ++ [10]) = ([119, 32, 49], [[97]]) := by
+  decide
 
 end Dulwich.Props.C19
